@@ -125,6 +125,12 @@ impl Rollback {
                 Ok(())
             },
         )?;
+        // The start of the live range in the manifest lags one sync behind the in-memory log: the
+        // delta discarded by the last `writeout_start` is still inside the recorded range. Do not
+        // bring it back, the log never holds more than `max_rollback_log_len` deltas.
+        while in_memory.total_len() > max_rollback_log_len as usize {
+            let _ = in_memory.pop_oldest();
+        }
         let shared = Arc::new(Shared {
             worker_tp: ThreadPool::with_name("rollback-worker".into(), ROLLBACK_TP_SIZE),
             sync_tp: ThreadPool::with_name("rollback-sync".into(), 1),
